@@ -11,7 +11,8 @@ PROP = "C09"
 CHECK_MODULE = "Check.C09"
 COQ_IMPORTS = "Model.AnnotationOps Check.AnnCommon"
 SHARD = 150
-RULE = ("(annotation a, annotation b, collar, support): random annotations (overlapping same-label tracks, several "
+RULE = ("[also: chart(percent=True) as exact rationals against the model; lists got from labels() / chart() scrambled before the observed queries] " +
+        "(annotation a, annotation b, collar, support): random annotations (overlapping same-label tracks, several "
         "tracks per segment, labels present in one operand only, empty operands), collar from {0, g-1, g, g+1} for an "
         "existing same-label gap g, support random Segment/Timeline/None; observed: a.support(collar), label_duration "
         "of every label, chart(), chart(percent=True) (fractions checked in the driver), argmax(), argmax(support), "
